@@ -51,6 +51,9 @@ def run(ctx):
         for i in range(n - 1):                                  # both sides of duplicated-energy (edge) rows
             if Es[i + 1] == Es[i]:
                 pts += [Es[i] * (1 - 1e-7), Es[i] * (1 + 1e-7)]
+        for i in range(n - 1):                                  # intervals that join a flagged (f1 = -9999) row to a tabulated one
+            if (rows[i][1] == "-9999.") != (rows[i + 1][1] == "-9999.") and Es[i + 1] > Es[i]:
+                pts += [Es[i] + (Es[i + 1] - Es[i]) * x for x in (0.5, 0.03, 0.97, rng.random())]
         pts += [Es[0] * (1 - 1e-9), Es[0] * 0.5, Es[0], Es[-1], Es[-1] * (1 + 1e-9), Es[-1] * 2, Es[1] * (1 - 1e-12)]
         for j, E in enumerate(pts):
             add({"kind": "sf", "z": z, "E": [E], "wavelength": (j % 5 == 0), "via": rng.choice(["el", "el", "ion", "iso"])})
@@ -74,6 +77,14 @@ def run(ctx):
             a = rng.choice(isos) if (kind < 0.3 and isos) else 0
             q = rng.choice(eb[z][2]) if (0.3 <= kind < 0.5 and eb[z][2]) else 0
             comp.append([z, a, q, rng.choice([1, 2, 3, 0.5, 7, 12])])
+        if i % 4 == 1:      # one element present in two forms (two isotopes, natural + isotope, two charge states)
+            z, a, q, _ = comp[0]
+            isos = rawtables.isotope_list().get(z, [])
+            twin = [z, rng.choice(isos) if isos else 0, q, rng.choice([1, 2, 0.5])]
+            if eb[z][2] and rng.random() < 0.5:
+                twin = [z, a, rng.choice(eb[z][2]), rng.choice([1, 2, 3])]
+            if (twin[1], twin[2]) != (a, q):
+                comp.append(twin)
         rho = rng.choice([0.5, 1.0, 2.33, 7.87, 19.3, rng.uniform(0.01, 22)])
         E = rng.choice(energies + [rng.uniform(0.011, 29.9)])
         m = i % 6
@@ -89,7 +100,10 @@ def run(ctx):
         else:
             iso_l = rawtables.isotope_list()
             variant = [[z, (rng.choice(iso_l[z]) if iso_l.get(z) else 0), q, n] for z, a, q, n in comp]
-            base = [[z, 0, q, n] for z, a, q, n in comp]
+            merged = {}
+            for z, a, q, n in comp:          # the same element twice: one entry of natural abundance with the summed count
+                merged[(z, q)] = merged.get((z, q), 0) + n
+            base = [[z, 0, q, n] for (z, q), n in merged.items()]
             addo({"kind": "rel", "rel": "isotope", "compound": ["dict", base], "variant": ["dict", variant], "density": rho, "E": E})
     for z in (chosen if quick else with_table):
         addo({"kind": "elsld", "z": z, "E": rng.choice(energies[:11])})
